@@ -440,6 +440,12 @@ impl<'a, 'b> G<'a, 'b> {
             while matches!(b.last(), Some(BodyTok::LineCont) | Some(BodyTok::Sp)) {
                 b.pop();
             }
+            // a body never ends with an argument-less usage: text that follows the expansion (e.g. a parenthesised
+            // group after a usage of this macro once it is object-like) would be read as that macro's arguments
+            if matches!(b.last(), Some(BodyTok::Use(u)) if u.args.is_none()) {
+                b.push(BodyTok::Sp);
+                b.push(BodyTok::Tok(format!("b{}", self.uid())));
+            }
             Some(b)
         };
         let trailing_comment = if body.as_ref().map(|b| !b.is_empty()).unwrap_or(false) && self.cfg.comments && self.t.chance(1, 6) {
@@ -772,7 +778,7 @@ impl<'a, 'b> G<'a, 'b> {
     }
 }
 
-fn ensure_trailing_newline(out: &mut Vec<Item>) {
+pub fn ensure_trailing_newline(out: &mut Vec<Item>) {
     if out.is_empty() {
         // first item of a branch / file: the line may be shared with the `ifdef header, so start a fresh line
         out.push(Item::Text(vec![(Piece::BlockComment("/* nl */".to_string()), "\n".to_string())]));
